@@ -448,6 +448,28 @@ def run(ctx: Ctx) -> None:
         if res[0] != res[1]:
             ctx.violation("foreign-traffic-stops-tracking", f"zone temperatures of {a[0]} after its own traffic {res[0]} differ once traffic of {b[0]} is spliced in {res[1]}",
                           {"own": a[0], "foreign": b[0], "own_lines": own, "foreign_lines": foreign, "eavesdrop": eav, "temps": res}, "history")
+    # ... and a neighbour's kit of a make the library has no schema for: structurally valid frames with codes it does not know, among the system's own
+    for name, base, cfg in (syss if thorough else syss[:4]):
+        own = base[:rng.randint(min(30, len(base)), min(len(base), 120))]
+        t_first = _dt.datetime.fromisoformat(own[0][:26])
+        span = max(1.0, (_dt.datetime.fromisoformat(own[-1][:26]) - t_first).total_seconds())
+        foreign = []
+        for k in range(8):
+            t = t_first + _dt.timedelta(seconds=span * (k + 1) / 10, microseconds=7 * k + 1)
+            code = rng.choice(["4E99", "7FFE", "0F00", "2EEE", "4E01"])
+            frame = rng.choice([f" I --- 32:155617 --:------ 32:155617 {code} 003 000102", f"RP --- 32:155617 18:000730 --:------ {code} 002 00C8", f" I --- 29:123456 63:262142 --:------ {code} 004 00010203"])
+            foreign.append(f"{t.isoformat(timespec='microseconds')} 045 {frame}")
+        eav = rng.random() < 0.5
+        try:
+            res, _ = gw.run_async(foreign_trial, own, foreign, cfg, eav)
+        except Exception as err:  # noqa: BLE001
+            ctx.violation(f"foreign-traffic-stops-the-replay:{type(err).__name__}", f"a log of system {name} with frames of unknown codes spliced in cannot be replayed: {type(err).__name__}: {err}"[:300],
+                          {"own": name, "own_lines": own, "foreign_lines": foreign, "eavesdrop": eav}, "history")
+            continue
+        ctx.case(("foreign-unknown-codes", name, len(own), eav), True, "history:unknown-codes-spliced")
+        if res is not None and res[0] is not None and res[0] != res[1]:
+            ctx.violation("foreign-traffic-stops-tracking:unknown-codes", f"zone temperatures of {name} after its own traffic {res[0]} differ once frames of unknown codes are spliced in {res[1]}",
+                          {"own": name, "own_lines": own, "foreign_lines": foreign, "eavesdrop": eav, "temps": res}, "history")
     ctx.extra["history_points_snapshotted"] = points
     ctx.extra["views_read"] = views
     ctx.notes.append(f"exceptions raised by message handlers into the loop's exception handler (gateway kept running): {loop_errs}")
